@@ -2,6 +2,7 @@ import HcipyVerif.Lemmas.Fraunhofer
 import HcipyVerif.Lemmas.FourierLink
 import HcipyVerif.Lemmas.FraunhoferSelect
 import HcipyVerif.Lemmas.FraunhoferBridge
+import HcipyVerif.Lemmas.FraunhoferObj
 
 /-!
 # C03 — lens (Fraunhofer) propagation equals the scaled Fourier integral
@@ -1237,5 +1238,289 @@ theorem lensPropagator_forward_eq_pipeline_mft (py px Fy Fx : RegAxis) (f : ℝ 
   exact (lensForward_mft py px Fy Fx _ My Mx emu _ (wf.field t) k).symm
 
 end pipeline
+
+/-! ## the propagator object and the wavefront record (executed: driver op `obj`)
+
+`LensProp.forward/backward` (`Model/FraunhoferObj.lean`) are `FraunhoferPropagator.forward/backward` on a whole
+`Wavefront` record: instance for the wavefront's wavelength (focal length evaluated there, the transform
+`make_fourier_transform` returned = `plan λ`), every tensor component through the selected pipeline, wavelength and
+Stokes vector handed on.  The native driver runs these very functions with `scalarsQ` on every check and the harness
+compares all components, the wavelength and the Stokes vector of the result with the running code; the theorems below are
+about the same functions with `scalarsR`.  `regObj`/`ptsObj`/`wfOf` only name the record literals. -/
+section object
+open HcipyVerif.Fft HcipyVerif.FourierLink
+variable {σ : Type}
+
+/-- **Wavelength and Stokes vector are carried, forward and backward** — by the executed record functions, at every
+scalar type (in particular the instance the driver runs and the harness compares with `out.wavelength`,
+`out.input_stokes_vector` of the running code on every `obj` request), for every kind of focal grid, plan and
+wavefront. -/
+theorem obj_meta_carried {K C : Type} [Zero K] [Add K] [Sub K] [Mul K] [Neg K] [Div K] [One K] [NatCast K] [IntCast K]
+    [Zero C] [One C] [Add C] [Mul C] [Inv C] [NatCast C] (S : Scalars K C) (P : LensProp K) (wf : Wf σ K C) :
+    (P.forward S wf).wavelength = wf.wavelength ∧ (P.forward S wf).stokes = wf.stokes ∧
+    (P.backward S wf).wavelength = wf.wavelength ∧ (P.backward S wf).stokes = wf.stokes :=
+  ⟨rfl, rfl, rfl, rfl⟩
+
+/-- **`forward` of the object is the scaled Fourier integral for every tensor component** (scalar, Jones vector, Jones
+matrix: `σ` arbitrary), every wavelength, wavelength-dependent focal length, whatever sound plan the instance holds. -/
+theorem obj_forward_eq_integral (py px Fy Fx : RegAxis) (f : ℝ → ℝ) (plan : ℝ → Plan) (emu : Bool)
+    (E : σ → Fin py.n × Fin px.n → ℂ) (lam : ℝ) (S : Option (ℝ × ℝ × ℝ × ℝ))
+    (hs : PlanSound py px Fy Fx (lam * f lam) (plan lam)) (t : σ) (k : Fin Fy.n × Fin Fx.n) :
+    ((regObj py px Fy Fx f plan emu).forward scalarsR (wfOf E lam S)).field t k.1 k.2
+      = 1 / (I * (lam : ℂ) * (f lam : ℂ))
+        * ∑ j : Fin py.n × Fin px.n, E t j * ((py.δ * px.δ : ℝ) : ℂ)
+            * cexp (-(2 * (Real.pi : ℂ) * I * ((dot ![Fx.x k.2, Fy.x k.1] ![px.x j.2, py.x j.1] : ℝ) : ℂ))
+                / ((lam : ℂ) * (f lam : ℂ))) := by
+  obtain ⟨numFft, cheaper, hm, hn⟩ := hs
+  rw [regObj_forward_field, clip2_apply]
+  exact lens_forward_eq_integral py px Fy Fx lam (f lam) _ _ emu numFft cheaper _ hm hn (E t) k
+
+/-- **`backward` of the object is the adjoint Fourier integral for every tensor component** (`λ f > 0`, positive focal
+spacings). -/
+theorem obj_backward_eq_adjoint_integral (py px Fy Fx : RegAxis) (f : ℝ → ℝ) (plan : ℝ → Plan) (emu : Bool)
+    (G : σ → Fin Fy.n × Fin Fx.n → ℂ) (lam : ℝ) (S : Option (ℝ × ℝ × ℝ × ℝ))
+    (hs : PlanSound py px Fy Fx (lam * f lam) (plan lam)) (hpos : 0 < lam * f lam) (hy : 0 < Fy.δ) (hx : 0 < Fx.δ)
+    (t : σ) (j : Fin py.n × Fin px.n) :
+    ((regObj py px Fy Fx f plan emu).backward scalarsR (wfOf G lam S)).field t j.1 j.2
+      = I / ((lam : ℂ) * (f lam : ℂ))
+        * ∑ k : Fin Fy.n × Fin Fx.n, G t k * ((Fy.δ * Fx.δ : ℝ) : ℂ)
+            * cexp (2 * (Real.pi : ℂ) * I * ((dot ![Fx.x k.2, Fy.x k.1] ![px.x j.2, py.x j.1] : ℝ) : ℂ)
+                / ((lam : ℂ) * (f lam : ℂ))) := by
+  obtain ⟨numFft, cheaper, hm, hn⟩ := hs
+  rw [regObj_backward_field, clip2_apply]
+  exact lens_backward_eq_adjoint_integral py px Fy Fx lam (f lam) _ _ emu numFft cheaper _ hm hn hpos hy hx (G t) j
+
+/-- **Total power of the wavefront record is conserved on a full conjugate grid** (sum over all tensor components:
+scalar and Jones-vector wavefronts). -/
+theorem obj_power [Fintype σ] (py px Fy Fx : RegAxis) (f : ℝ → ℝ) (plan : ℝ → Plan) (emu : Bool)
+    (E : σ → Fin py.n × Fin px.n → ℂ) (lam : ℝ) (S : Option (ℝ × ℝ × ℝ × ℝ))
+    (hs : PlanSound py px Fy Fx (lam * f lam) (plan lam)) (hpos : 0 < lam * f lam)
+    (hfull : FullAt py px Fy Fx (lam * f lam)) :
+    ∑ t, power (regGrid2 Fy Fx).weights (fun k : Fin Fy.n × Fin Fx.n =>
+        ((regObj py px Fy Fx f plan emu).forward scalarsR (wfOf E lam S)).field t k.1 k.2)
+      = ∑ t, power (regGrid2 py px).weights (E t) := by
+  obtain ⟨numFft, cheaper, hm, hn⟩ := hs
+  apply Finset.sum_congr rfl
+  intro t _
+  rw [regObj_forward_field]
+  simp only [clip2_apply]
+  exact lens_power py px Fy Fx lam (f lam) _ _ emu numFft cheaper _ hm hn hpos hfull (E t)
+
+/-- **Stokes-`I` power of a Jones-matrix wavefront record** (any Stokes vector) is conserved on a full conjugate grid. -/
+theorem obj_stokes_power (py px Fy Fx : RegAxis) (f : ℝ → ℝ) (plan : ℝ → Plan) (emu : Bool)
+    (E : Fin 2 × Fin 2 → Fin py.n × Fin px.n → ℂ) (lam : ℝ) (S : Option (ℝ × ℝ × ℝ × ℝ)) (Sv : Fin 4 → ℝ)
+    (hs : PlanSound py px Fy Fx (lam * f lam) (plan lam)) (hpos : 0 < lam * f lam)
+    (hfull : FullAt py px Fy Fx (lam * f lam)) :
+    stokesPower (regGrid2 Fy Fx).weights Sv (fun c (k : Fin Fy.n × Fin Fx.n) =>
+        ((regObj py px Fy Fx f plan emu).forward scalarsR (wfOf E lam S)).field c k.1 k.2)
+      = stokesPower (regGrid2 py px).weights Sv E := by
+  obtain ⟨numFft, cheaper, hm, hn⟩ := hs
+  simp only [regObj_forward_field, clip2_apply]
+  exact lens_stokes_power py px Fy Fx lam (f lam) _ _ emu numFft cheaper _ hm hn hpos hfull Sv E
+
+/-- **`backward(forward(wf)) = wf` as records** on a full conjugate grid: every tensor component, the wavelength and the
+Stokes vector. -/
+theorem obj_inverse (py px Fy Fx : RegAxis) (f : ℝ → ℝ) (plan : ℝ → Plan) (emu : Bool)
+    (E : σ → Fin py.n × Fin px.n → ℂ) (lam : ℝ) (S : Option (ℝ × ℝ × ℝ × ℝ))
+    (hs : PlanSound py px Fy Fx (lam * f lam) (plan lam)) (hy : 0 < Fy.δ) (hx : 0 < Fx.δ)
+    (hfull : FullAt py px Fy Fx (lam * f lam)) :
+    (regObj py px Fy Fx f plan emu).backward scalarsR ((regObj py px Fy Fx f plan emu).forward scalarsR (wfOf E lam S))
+      = wfOf E lam S := by
+  obtain ⟨numFft, cheaper, hm, hn⟩ := hs
+  have hfield : ∀ t, ((regObj py px Fy Fx f plan emu).backward scalarsR
+      ((regObj py px Fy Fx f plan emu).forward scalarsR (wfOf E lam S))).field t = ext2 (E t) := by
+    intro t
+    rw [regObj_backward_field, regObj_forward_field, clip2_eq_ext2, clip2_eq_ext2]
+    congr 1
+    funext j
+    exact lens_inverse py px Fy Fx lam (f lam) _ _ emu numFft cheaper _ hm hn hy hx hfull (E t) j
+  show Wf.mk _ _ _ = Wf.mk _ _ _
+  congr 1
+  funext t
+  exact hfield t
+
+/-- **One object after any history of `focal_length` assignments** (unbounded; each assignment clears the cache, so the
+plans are those of the new focal length): `forward` is the integral for the **last** assigned focal length. -/
+theorem obj_forward_eq_integral_after_sets (py px Fy Fx : RegAxis) (emu : Bool)
+    (sets : List ((ℝ → ℝ) × (ℝ → Plan))) (f0 : ℝ → ℝ) (plan0 : ℝ → Plan) (g : ℝ → ℝ) (pl : ℝ → Plan)
+    (E : σ → Fin py.n × Fin px.n → ℂ) (lam : ℝ) (S : Option (ℝ × ℝ × ℝ × ℝ))
+    (hs : PlanSound py px Fy Fx (lam * g lam) (pl lam)) (t : σ) (k : Fin Fy.n × Fin Fx.n) :
+    (((sets ++ [(g, pl)]).foldl (fun P s => P.setFocalLength s.1 s.2) (regObj py px Fy Fx f0 plan0 emu)).forward
+        scalarsR (wfOf E lam S)).field t k.1 k.2
+      = 1 / (I * (lam : ℂ) * (g lam : ℂ))
+        * ∑ j : Fin py.n × Fin px.n, E t j * ((py.δ * px.δ : ℝ) : ℂ)
+            * cexp (-(2 * (Real.pi : ℂ) * I * ((dot ![Fx.x k.2, Fy.x k.1] ![px.x j.2, py.x j.1] : ℝ) : ℂ))
+                / ((lam : ℂ) * (g lam : ℂ))) := by
+  rw [regObj_sets]
+  exact obj_forward_eq_integral py px Fy Fx g pl emu E lam S hs t k
+
+/-- `PlanSound` is satisfiable for every pair of grids and every `λ f` (the MFT plan) … -/
+example (py px Fy Fx : RegAxis) (lf : ℝ) : ∃ pl, PlanSound py px Fy Fx lf pl := ⟨_, planSound_mft py px Fy Fx lf 0 0 false⟩
+
+/-- … and with the FFT selected: pupil `2×2`, `δ = 1/2`; focal `4×4`, `Δ = 1/2`; `λ f = 1`, padded sizes `4`. -/
+example : PlanSound ⟨2, 1 / 2, 0⟩ ⟨2, 1 / 2, 0⟩ ⟨4, 1 / 2, -1⟩ ⟨4, 1 / 2, -1⟩ 1 ⟨.fft, 4, 4, false⟩ := by
+  refine ⟨true, true, by decide, fun _ => ⟨by norm_num, ⟨?_, ?_, ?_⟩, ⟨?_, ?_, ?_⟩⟩⟩ <;> norm_num
+
+/-! ### the executable plan and object (ℚ), what the driver builds -/
+
+/-- **The executable plan is sound**: what `planOf` (the executable `lensMethod` and `classify`) puts into the object
+the driver runs satisfies `PlanSound` for the casts of the rational grids, whatever the planner's outcome. -/
+theorem planOf_sound (s : Setup) (focal : RegGrid) {δx δy Δx Δy zx zy Zx Zy : ℚ} {Nx Ny Mox Moy : ℕ}
+    (hp : s.pupil = ⟨[δx, δy], [Nx, Ny], [zx, zy]⟩) (hf : focal = ⟨[Δx, Δy], [Mox, Moy], [Zx, Zy]⟩)
+    (hlf : lamf s ≠ 0) (cheaper mat : Bool) :
+    PlanSound (axisR Ny δy zy) (axisR Nx δx zx) (axisR Moy Δy Zy) (axisR Mox Δx Zx) ((lamf s : ℚ) : ℝ)
+      (planOf s (.regular focal) cheaper mat) := by
+  refine ⟨(classify s focal).1 != FocalClass.other, cheaper, ?_, ?_⟩
+  · have h2 : s.pupil.ndim = 2 := by rw [hp]; rfl
+    have h3 : focal.ndim = 2 := by rw [hf]; rfl
+    have hsome := lensMethod_some s focal hp hf cheaper
+    have hm : (planOf s (.regular focal) cheaper mat).m
+        = (if (classify s focal).1 ≠ .other ∧ cheaper = true then Method.fft else Method.mft) := by
+      simp only [planOf, hsome, Option.getD_some]
+    rw [hm, ← hsome]
+    unfold lensMethod
+    rw [h2, h3]
+    rfl
+  · intro hnum
+    have hne : (classify s focal).1 ≠ .other := by simpa using hnum
+    obtain ⟨Mx', My', hMs, ⟨hNx, hMox, hx⟩, ⟨hNy, hMoy, hy⟩⟩ := classify_native_2d hp hf hne
+    have hMy : (planOf s (.regular focal) cheaper mat).My = My' := by simp only [planOf, hMs]
+    have hMx : (planOf s (.regular focal) cheaper mat).Mx = Mx' := by simp only [planOf, hMs]
+    rw [hMy, hMx]
+    exact ⟨by exact_mod_cast hlf, nativeAxis_cast hNy hMoy hy, nativeAxis_cast hNx hMox hx⟩
+
+/-- **What the driver's object is** for a 2-D regular pupil and focal grid: the axes of the two grids, the session's
+current focal length, and per wavelength the executable plan of the instance. -/
+theorem lensObj_regular (ss : Session) (focal : RegGrid) {δx δy Δx Δy zx zy Zx Zy : ℚ} {Nx Ny Mox Moy : ℕ}
+    (hp : ss.pupil = ⟨[δx, δy], [Nx, Ny], [zx, zy]⟩) (hf : focal = ⟨[Δx, Δy], [Mox, Moy], [Zx, Zy]⟩)
+    (cheaper mat emu : Bool) :
+    lensObj ss (.regular focal) cheaper mat emu
+      = some ⟨⟨Ny, δy, zy⟩, ⟨Nx, δx, zx⟩, .regular ⟨Moy, Δy, Zy⟩ ⟨Mox, Δx, Zx⟩, ss.focalLength.eval,
+          fun lam => planOf (ss.instanceAt lam) (.regular focal) cheaper mat, emu⟩ := by
+  unfold lensObj axesOf
+  rw [hp, hf]
+  rfl
+
+/-- **End to end from the executable object**: an object over `ℝ` whose focal length and plan at the (rational)
+wavelength are those of the object the driver builds (`lensObj_regular`) — after any history of `focal_length`
+assignments on the session — computes the scaled integral for the session's current focal length. -/
+theorem obj_forward_eq_integral_of_model (ss : Session) (fs : List FocalSpec) (g : FocalSpec) (focal : RegGrid)
+    {δx δy Δx Δy zx zy Zx Zy : ℚ} {Nx Ny Mox Moy : ℕ}
+    (hp : ss.pupil = ⟨[δx, δy], [Nx, Ny], [zx, zy]⟩) (hf : focal = ⟨[Δx, Δy], [Mox, Moy], [Zx, Zy]⟩)
+    (cheaper mat emu : Bool) (lam : ℚ) (hlf : lam * g.eval lam ≠ 0) (f : ℝ → ℝ) (plan : ℝ → Plan)
+    (hfl : f (lam : ℝ) = ((g.eval lam : ℚ) : ℝ))
+    (hpl : plan (lam : ℝ) = planOf (((fs ++ [g]).foldl Session.setFocalLength ss).instanceAt lam) (.regular focal) cheaper mat)
+    (E : σ → Fin Ny × Fin Nx → ℂ) (S : Option (ℝ × ℝ × ℝ × ℝ)) (t : σ) (k : Fin Moy × Fin Mox) :
+    ((regObj (axisR Ny δy zy) (axisR Nx δx zx) (axisR Moy Δy Zy) (axisR Mox Δx Zx) f plan emu).forward scalarsR
+        (wfOf E (lam : ℝ) S)).field t k.1 k.2
+      = 1 / (I * ((lam : ℝ) : ℂ) * (((g.eval lam : ℚ) : ℝ) : ℂ))
+        * ∑ j : Fin Ny × Fin Nx, E t j * (((δy : ℝ) * (δx : ℝ) : ℝ) : ℂ)
+            * cexp (-(2 * (Real.pi : ℂ) * I * ((dot ![(axisR Mox Δx Zx).x k.2, (axisR Moy Δy Zy).x k.1]
+                  ![(axisR Nx δx zx).x j.2, (axisR Ny δy zy).x j.1] : ℝ) : ℂ))
+                / (((lam : ℝ) : ℂ) * (((g.eval lam : ℚ) : ℝ) : ℂ))) := by
+  have hsound := planOf_sound ⟨lam, g.eval lam, ss.pupil⟩ focal hp hf (by unfold lamf; exact hlf) cheaper mat
+  rw [session_instance_after_sets ss fs g lam] at hpl
+  have hcast : ((lamf ⟨lam, g.eval lam, ss.pupil⟩ : ℚ) : ℝ) = (lam : ℝ) * f (lam : ℝ) := by
+    unfold lamf; rw [hfl]; push_cast; rfl
+  rw [hcast, ← hpl] at hsound
+  have h := obj_forward_eq_integral (axisR Ny δy zy) (axisR Nx δx zx) (axisR Moy Δy Zy) (axisR Mox Δx Zx) f plan emu E
+    (lam : ℝ) S hsound t k
+  rw [hfl] at h
+  exact h
+
+/-! ### unstructured and polar focal grids: the naive transform inside the pipeline -/
+
+/-- **The executable selection returns the naive transform for a focal grid that is not separated** (unstructured,
+polar), whatever the planner says. -/
+theorem planOf_points_naive (s : Setup) (X Y w : List ℚ) (cheaper mat : Bool) (h2 : s.pupil.ndim = 2) :
+    (planOf s (.points X Y w) cheaper mat).m = .naive := by
+  simp [planOf, h2, Fft.choose, detectFix, detectLit, GridDesc.isRegular, GridDesc.isSeparated]
+
+/-- **The executed naive pipeline equals the scaled Fourier integral** on any list of focal points (unstructured grids,
+polar grids through their Cartesian coordinates), both code paths of `NaiveFourierTransform` (`mat`), every wavelength
+and focal length: C01's `nftForwardFly`/`nftForwardMat` composed into the lens. -/
+theorem lens_naive_forward_eq_integral (mat : Bool) (py px : RegAxis) (X Y : ℕ → ℝ) (lam f : ℝ)
+    (E : Fin py.n × Fin px.n → ℂ) (k : ℕ) :
+    lensNaiveForward expT mat Complex.ofReal (axOf py) (axOf px) X Y (lam * f) (ext2 E) k * normFactorC lam f
+      = 1 / (I * (lam : ℂ) * (f : ℂ))
+        * ∑ j : Fin py.n × Fin px.n, E j * ((py.δ * px.δ : ℝ) : ℂ)
+            * cexp (-(2 * (Real.pi : ℂ) * I * ((dot ![X k, Y k] ![px.x j.2, py.x j.1] : ℝ) : ℂ))
+                / ((lam : ℂ) * (f : ℂ))) := by
+  rw [lensNaiveForward_eq_sum, mul_comm]
+  unfold normFactorC
+  congr 1
+  · rw [mul_right_comm]
+  · apply Finset.sum_congr rfl
+    intro j _
+    congr 1
+    unfold expT
+    congr 1
+    simp only [dot, Fin.sum_univ_two, Matrix.cons_val_zero, Matrix.cons_val_one]
+    push_cast
+    ring
+
+/-- **… and backward is the adjoint Fourier integral** over the focal points with their weights `w_k` (`λ f ≠ 0`). -/
+theorem lens_naive_backward_eq_adjoint_integral (mat : Bool) (py px : RegAxis) (n : ℕ) (X Y w : ℕ → ℝ) (lam f : ℝ)
+    (hne : lam * f ≠ 0) (G : ℕ → ℂ) (j : Fin py.n × Fin px.n) :
+    lensNaiveBackward expT mat Complex.ofReal (axOf py) (axOf px) n X Y w (lam * f) G (j.1 * px.n + j.2)
+        * (normFactorC lam f)⁻¹
+      = I / ((lam : ℂ) * (f : ℂ))
+        * ∑ k ∈ Finset.range n, G k * (w k : ℂ)
+            * cexp (2 * (Real.pi : ℂ) * I * ((dot ![X k, Y k] ![px.x j.2, py.x j.1] : ℝ) : ℂ)
+                / ((lam : ℂ) * (f : ℂ))) := by
+  rw [lensNaiveBackward_eq_sum, Finset.sum_mul, Finset.mul_sum]
+  have hlf : ((lam : ℂ) * (f : ℂ)) ≠ 0 := by exact_mod_cast hne
+  have hl : (lam : ℂ) ≠ 0 := left_ne_zero_of_mul hlf
+  have hf : (f : ℂ) ≠ 0 := right_ne_zero_of_mul hlf
+  apply Finset.sum_congr rfl
+  intro k _
+  have hexp : expT (X k / (lam * f) * px.x j.2 + Y k / (lam * f) * py.x j.1)
+      = cexp (2 * (Real.pi : ℂ) * I * ((dot ![X k, Y k] ![px.x j.2, py.x j.1] : ℝ) : ℂ) / ((lam : ℂ) * (f : ℂ))) := by
+    unfold expT
+    congr 1
+    simp only [dot, Fin.sum_univ_two, Matrix.cons_val_zero, Matrix.cons_val_one]
+    push_cast
+    ring
+  rw [hexp]
+  unfold normFactorC
+  push_cast
+  field_simp
+
+/-- **`forward` of the object onto a point-list focal grid** (unstructured, polar) is the scaled Fourier integral for
+every tensor component — the record function the driver runs (op `obj … pts`). -/
+theorem obj_forward_points_eq_integral (py px : RegAxis) (n : ℕ) (X Y w : ℕ → ℝ) (f : ℝ → ℝ) (plan : ℝ → Plan)
+    (emu : Bool) (E : σ → Fin py.n × Fin px.n → ℂ) (lam : ℝ) (S : Option (ℝ × ℝ × ℝ × ℝ)) (t : σ) (k : Fin n) :
+    ((ptsObj py px n X Y w f plan emu).forward scalarsR (wfOf E lam S)).field t 0 k
+      = 1 / (I * (lam : ℂ) * (f lam : ℂ))
+        * ∑ j : Fin py.n × Fin px.n, E t j * ((py.δ * px.δ : ℝ) : ℂ)
+            * cexp (-(2 * (Real.pi : ℂ) * I * ((dot ![X k, Y k] ![px.x j.2, py.x j.1] : ℝ) : ℂ))
+                / ((lam : ℂ) * (f lam : ℂ))) := by
+  rw [ptsObj_forward_field]
+  have : clip2 1 n (fun _ k => lensNaiveForward expT (plan (wfOf E lam S).wavelength).mat Complex.ofReal (axOf py)
+      (axOf px) X Y ((wfOf E lam S).wavelength * f (wfOf E lam S).wavelength) ((wfOf E lam S).field t) k
+        * normFactorC (wfOf E lam S).wavelength (f (wfOf E lam S).wavelength)) 0 k
+      = lensNaiveForward expT (plan lam).mat Complex.ofReal (axOf py) (axOf px) X Y (lam * f lam) (ext2 (E t)) k
+        * normFactorC lam (f lam) := by
+    simp [clip2, k.2, wfOf]
+  rw [this]
+  exact lens_naive_forward_eq_integral _ py px X Y lam (f lam) (E t) k
+
+/-! ### object identity: what a call history creates -/
+
+/-- **Results are new objects, for every call history** (unbounded; fresh wavefronts with or without Stokes vector,
+results fed back in): in the executed allocation model (`runCalls`, driver op `alias`, compared with `np.shares_memory`
+on the real objects after the same history) all field arrays and Stokes-vector arrays of all wavefronts — inputs and
+results — are pairwise distinct objects: `forward`/`backward` never return or keep an array of their input or of an
+earlier result, and the Stokes vector of a result is a copy. -/
+theorem calls_create_distinct_arrays (cs : List Call) :
+    ((runCalls ⟨0⟩ [] cs).2.flatMap WfRef.ids).Nodup :=
+  (heapOk_runCalls cs ⟨0⟩ [] ⟨by simp, by simp⟩).1
+
+/-- … and a result carries a Stokes vector exactly when its input does. -/
+theorem propagate_stokes_iff (h : Heap) (w : WfRef) : (h.propagate w).2.stokes.isSome = w.stokes.isSome := by
+  unfold Heap.propagate
+  cases w.stokes <;> rfl
+
+end object
 
 end HcipyVerif.Fraunhofer
